@@ -87,7 +87,7 @@ structure Callable where
 deriving DecidableEq, Repr
 
 /-- what defines a node: the callable, the static part of the payload, the names of the inputs, and the
-number of outputs (`num_outputs`: 1, or the length of `yields`) — which the name does NOT cover -/
+number of outputs (`num_outputs`: 1, or the length of `yields`) -/
 structure Comp (σ : Type) where
   func : Callable
   statics : σ
@@ -95,9 +95,14 @@ structure Comp (σ : Type) where
   outputs : Nat := 1
 deriving DecidableEq
 
-/-- the string that is hashed: `f"{payload}{[input names]}"`, `R` renders the statics -/
+/-- the part of the hashed string that covers the number of outputs (fix commit): nothing for one output,
+`|outputs=<n>` otherwise -/
+def outSuffix (n : Nat) : Str := if n = 1 then [] else "|outputs=".toList ++ (toString n).toList
+
+/-- the string that is hashed: `f"{payload}{[input names]}"` (+ `f"|outputs={num_outputs}"` unless there is one
+output), `R` renders the statics -/
 def render {σ : Type} (R : σ → Str) (c : Comp σ) : Str :=
-  c.func.name ++ R c.statics ++ reprNames c.inputs
+  c.func.name ++ R c.statics ++ reprNames c.inputs ++ outSuffix c.outputs
 
 /-- `Node.name` when no explicit name is given -/
 def nodeName {σ : Type} (H : Str → Str) (R : σ → Str) (c : Comp σ) : Str :=
@@ -153,17 +158,16 @@ end
 mutual
 /-- `Node.name`, bottom-up -/
 def Term.name {σ : Type} (H : Str → Str) (R : σ → Str) : Term σ → Str
-  | .node label f s _ args => (label.getD f.name) ++ ':' :: H (f.name ++ R s ++ reprNames (Args.names H R args))
+  | .node label f s o args => (label.getD f.name) ++ ':' :: H (f.name ++ R s ++ reprNames (Args.names H R args) ++ outSuffix o)
 def Args.names {σ : Type} (H : Str → Str) (R : σ → Str) : Args σ → List Str
   | .nil => []
   | .cons t out rest => inputName (Term.name H R t) out :: Args.names H R rest
 end
 
 mutual
-/-- the computation a term denotes: the label is only the prefix of the name, the number of outputs is not covered by
-the name (`c14_outputs_full_fails`) — both are normalised away -/
+/-- the computation a term denotes: whether the prefix of the name was passed explicitly is normalised away -/
 def Term.comp {σ : Type} : Term σ → Term σ
-  | .node label f s _ args => .node (some (label.getD f.name)) f s 0 (Args.comp args)
+  | .node label f s o args => .node (some (label.getD f.name)) f s o (Args.comp args)
 def Args.comp {σ : Type} : Args σ → Args σ
   | .nil => .nil
   | .cons t out rest => .cons (Term.comp t) out (Args.comp rest)
